@@ -105,6 +105,29 @@ def worker(case):
     key = _hier.key_of(case, n)
     tag = "%s:%s" % (case[0][0], variant or case[0][2])
     nontriv = _hier.sharing(elab.Elab(n))
+    if variant == "cell-outside-any-library":
+        # a shared hierarchical cell was taken out of its library (to be moved, say) and not put back: uniquify cannot
+        # place a copy next to it; when it gives up, nothing of the attempt stays behind (reference sets included)
+        shared = [d for l in n.libraries for d in l.definitions if not elab.is_leaf_def(d) and len(d.references) > 1]
+        if not shared:
+            return {"key": key, "nontrivial": False, "outcome": "not-applicable", "problems": [], "transitions": 0}
+        lib0 = shared[0].library
+        lib0.remove_definition(shared[0])
+        w = World()
+        w.add(n)
+        w.add(shared[0])
+        w.discover()
+        s0 = snapshot(w)
+        nobj = len(w)
+        try:
+            uniquify(n)
+            return {"key": key, "nontrivial": True, "outcome": "accepted", "problems": [], "transitions": 1}
+        except Exception as ex:
+            w.discover()
+            if len(w) != nobj or snapshot(w) != s0:
+                probs.append(("failed-uniquify-left-traces:%s:%s" % (type(ex).__name__, tag),
+                              "uniquify raised %r; %d objects reachable before, %d after, or their state differs" % (ex, nobj, len(w))))
+            return {"key": key, "nontrivial": True, "outcome": "raised", "problems": probs, "transitions": 1}
     res = one_round(n, tag, probs)
     if res is not None:
         return {"key": key, "nontrivial": nontriv, "outcome": "raised", "problems": probs, "transitions": 1}
@@ -179,6 +202,7 @@ def cases(tier):
             out.append((desc, "asc", "orphan-instance"))
         if desc[0] in ("K2-shared", "K8-bus", "K7-shared-both") and (tier == "thorough" or sum(desc[1]) % 11 == 0):
             out.append((desc, "asc", "after-refused-edits"))
+            out.append((desc, "asc", "cell-outside-any-library"))
     return out
 
 
